@@ -216,6 +216,9 @@ type Gen struct {
 	MinActors  int // at least this many actors in the cast
 	ForceRoles int // 0: 1-2 roles at random
 	ForceMulti int // 0: at random; 1: never; 2: the first role is a multiplied cast line
+	// NonFinite: scalar fields may spell infinity / NaN (real plays only: the
+	// model's numbers are rationals).
+	NonFinite bool
 }
 
 func (g *Gen) pick(xs []string) string { return xs[g.R.Intn(len(xs))] }
@@ -392,9 +395,51 @@ type NumTok struct {
 	S     string
 	Valid bool
 	Val   *big.Rat
+	// NonFinite: what the CSV shows for a spelling of infinity / NaN
+	// (ParseFloat accepts those without error; scalar signals only).
+	NonFinite string
 }
 
-var badNums = []string{"1e", "--3", "0x1", "1.2.3", "e5", "+", "1e400", "abc", "1,5", ".", "-", "1e+", "3-"}
+var badNums = []string{"1e", "--3", "0x1", "1.2.3", "e5", "+", "1e400", "abc", "1,5", ".", "-", "1e+", "3-", "-NaN", "0x1p", "0x.p1", "-1e400", "0x1p1024"}
+
+// edgeNums: numerals at the edges of what ParseFloat accepts - magnitudes of
+// 2^63 and beyond (int64 conversions overflow there), the largest and the
+// smallest float64, underflow to zero, integers too long to be exact,
+// hexadecimal floats.  Each with its exact meaning.
+var edgeNums = func() []NumTok {
+	mk := func(s, exact string) NumTok {
+		r, ok := new(big.Rat).SetString(exact)
+		if !ok {
+			panic("edgeNums: " + exact)
+		}
+		return NumTok{S: s, Valid: true, Val: r}
+	}
+	dec := func(s string) NumTok { return mk(s, s) }
+	return []NumTok{
+		dec("1e19"), dec("-1e19"), dec("1e300"), dec("-1e300"), dec("9223372036854775808"), dec("-9223372036854775809"),
+		dec("18446744073709551616"), dec("6e18"), dec("-6e18"), dec("1e308"), dec("4.9e-324"), dec("1e-400"),
+		dec("123456789012345678901234567890"), dec("1.5e19"), mk("-0", "0"),
+		mk("0x1p-2", "1/4"), mk("0X1.8p1", "3"), mk("-0x10p0", "-16"), mk("0x1p63", "9223372036854775808"),
+		mk("0x1p64", "18446744073709551616"), mk("0x.8P1", "1"),
+	}
+}()
+
+// edgeNumsCheap: the edge numerals whose exact value is short.
+func edgeNumsCheap() []NumTok {
+	var out []NumTok
+	for _, n := range edgeNums {
+		if len(n.Val.Num().String())+len(n.Val.Denom().String()) < 40 {
+			out = append(out, n)
+		}
+	}
+	return out
+}
+
+// nonFiniteNums: spellings ParseFloat turns into +Inf / -Inf / NaN.
+var nonFiniteNums = []NumTok{
+	{S: "Inf", Valid: true, NonFinite: "+Inf"}, {S: "+Inf", Valid: true, NonFinite: "+Inf"}, {S: "-inf", Valid: true, NonFinite: "-Inf"},
+	{S: "infinity", Valid: true, NonFinite: "+Inf"}, {S: "NaN", Valid: true, NonFinite: "NaN"}, {S: "nan", Valid: true, NonFinite: "NaN"},
+}
 
 func ratEighths(k int64) *big.Rat { return big.NewRat(k, 8) }
 
@@ -717,6 +762,7 @@ func (l *LineGen) IntentFor(s *SigDef, nums map[string]*NumTok) Intent {
 	} else if nt, ok := nums[val]; ok && nt.Valid {
 		it.ValOK = true
 		it.Num = nt.Val
+		it.Text = nt.NonFinite
 	}
 	return it
 }
@@ -871,6 +917,19 @@ func (g *Gen) Lines(c *CfgGen, n int, nums map[string]*NumTok) []ItemGen {
 				switch r := g.R.Intn(10); {
 				case r < 2:
 					nt = NumTok{S: g.pick(badNums)}
+					if g.NonFinite && s.Kind == 1 && g.R.Intn(2) == 0 {
+						nt = nonFiniteNums[g.R.Intn(len(nonFiniteNums))]
+					}
+				case r < 3:
+					// mostly the moderately huge ones (2^63 .. 1e19, hex);
+					// the 300-digit rationals are costly to evaluate
+					nt = edgeNums[g.R.Intn(len(edgeNums))]
+					if cheap := edgeNumsCheap(); g.R.Intn(4) != 0 {
+						nt = cheap[g.R.Intn(len(cheap))]
+					}
+					if g.R.Intn(2) == 0 {
+						nt = g.renderNum(lastK[key])
+					}
 				case r < 5:
 					nt = g.renderNum(lastK[key]) // repeated value
 				default:
